@@ -7,8 +7,9 @@ LEVEL = "proof"
 RULE = ("operation sequences against the real local-queue client on a temporary job directory — add batches, claim batches (one "
         "transaction), delete (finish acks), reset (graceful stop of tracked seeds), and at any point 'abandon' (the process dies: the client is "
         "dropped without clean-up) followed by re-opening the same job directory; after every re-open all remaining rows must be "
-        "claimable again. thorough: plus end-to-end crawls killed at the k-th request / stopped gracefully and restarted on the same job "
-        "directory (see e2e scenarios). Non-trivial: a sequence with a kill while rows are claimed; distinct by op list")
+        "claimable again; plus whole crawls on the real local queue killed (SIGKILL) after a seeded delay or stopped gracefully after k "
+        "requests, inspected on disk (queue rows, WARC records read member by member) and restarted on the same job directory until the "
+        "queue drains. Non-trivial: a sequence with a kill while rows are claimed; distinct by op list")
 
 
 def lq_crash_sequence(r, n):
@@ -77,7 +78,7 @@ def run_stream(ctx, seqs):
 def corpus(ctx):
     d = os.path.join(core.VERIF, "corpus", "C04")
     out = []
-    for f in sorted(os.listdir(d)) if os.path.isdir(d) else []:
+    for f in sorted(x for x in os.listdir(d) if x.endswith('.jsonl')) if os.path.isdir(d) else []:
         for l in open(os.path.join(d, f)):
             if l.strip():
                 out.append(json.loads(l))
@@ -89,15 +90,8 @@ def run(ctx):
     seqs = corpus(ctx) + [lq_crash_sequence(r, r.randrange(4, 40)) for _ in range(10000 if ctx.thorough() else 200)]
     run_stream(ctx, seqs)
     ctx.sample(seqs[len(corpus(ctx))][:10])
-    if ctx.thorough():
-        try:
-            from . import e2e
-        except ImportError:
-            e2e = None
-        if e2e is not None and hasattr(e2e, "c04_scenarios"):
-            e2e.c04_scenarios(ctx)
-        else:
-            ctx.notes.append("end-to-end kill/restart scenarios not available in this build")
+    from . import e2e
+    e2e.c04_scenarios(ctx)
     ctx.assumptions += ["SQLite commits atomically and survives a killed process; the WARC library appends whole records and signals the feedback "
                         "channel only after the record is on disk (validated end to end in the thorough tier, not proved)",
                         "kill points are chosen at observable events (k-th request, k-th row change), not at instruction level"]
